@@ -64,16 +64,19 @@ def parseReq (j : Json) : Req :=
   let note := (parsed.bind fun b => (b.getObjVal? "meta").toOption.bind fun m => (m.getObjVal? "note").toOption.bind (·.getStr?.toOption)).getD ""
   let wrapOk := parsed.isSome && (name.map (!·.isEmpty)).getD false
   let wrapText := "{\"meta\":{\"note\":" ++ jsonStrLit note ++ "},\"name\":" ++ jsonStrLit (name.getD "") ++ "}"
+  -- Page[[]string]{items}: nothing is validated; the controller receives what was sent
+  let isPage := jstrD j "bodyType" = "Page"
+  let pageText := (parsed.map (·.compress)).getD ""
   { method := jstrD j "method", segs := segs, query := q,
     headers := (objEntries ((j.getObjVal? "headers").toOption.getD Json.null)).map fun (k, v) => (k, v.getStr?.toOption.getD ""),
     form := (objEntries ((j.getObjVal? "form").toOption.getD Json.null)).filterMap fun (k, v) =>
       match v with | .arr xs => xs[0]?.map fun x => (k, x.getStr?.toOption.getD "") | _ => none,
     hasBody := !body.isEmpty,
-    bodyOk := if isEmployee then empOk else if isWrap then wrapOk else (match parsed with
+    bodyOk := if isPage then parsed.isSome else if isEmployee then empOk else if isWrap then wrapOk else (match parsed with
       | some (.arr xs) => xs.toList.all fun x => ((itemName x).map (!·.isEmpty)).getD false && itemCount x ≥ 0    -- every element is validated
       | some _ => (name.map (!·.isEmpty)).getD false && count ≥ 0      -- Item{name required; count gte=0}
       | none => false),
-    body := if isEmployee then empText else if isWrap then wrapText else (match parsed with
+    body := if isPage then pageText else if isEmployee then empText else if isWrap then wrapText else (match parsed with
       | some (.arr xs) => "[" ++ " ".intercalate (xs.toList.map itemText) ++ "]"
       | _ => "{\"name\":" ++ jsonStrLit (name.getD "") ++ ",\"count\":" ++ toString count ++ "}"),
     deny := strList j "deny" }
@@ -89,7 +92,8 @@ def buildRoutes (p : PProject) : Option (List SRoute) :=
         { ctrl := c.name, ctrlPath := rc.path, r := r,
           infos := r.params.map fun rp => ⟨rp, ((m.params.find? (·.name = rp.name)).map (·.type)).getD ""⟩,
           setStatus := (match (jnat raw "setStatus").toOption with | some 0 => none | o => o),
-          fails := jboolD raw "fail" }
+          fails := jboolD raw "fail",
+          customErr := (m.results.getLast?.map fun t => t != "error").getD false }
   if rs.any Option.isNone then none else some (rs.filterMap id).flatten
 
 def checkLine (c : Check) : String := "auth " ++ c.scheme ++ "[" ++ " ".intercalate c.scopes ++ "]"
@@ -170,13 +174,18 @@ def checkRig (prop : String) (input : Json) (impl : Json) : PropOut := Id.run do
       let kind := jstrD rq "kind"
       let r := parseReq rq
       -- the status the authorization callback refuses with (the rig's callback takes it from the request)
-      let denyStatus := toString (match (jnat rq "denyStatus").toOption with | some n => if n = 0 then 403 else n | none => 403)
+      let denyBase := match (jnat rq "denyStatus").toOption with | some n => if n = 0 then 403 else n | none => 403
+      -- `spread`: the i-th scheme of the deny list is refused with status base+i; the answer carries the LAST refusal's
+      let denyStatus := toString (match serve enums routes r with
+        | .refused asked =>
+          if jboolD rq "spread" then denyBase + (match asked.getLast? with | some c => r.deny.idxOf c.scheme | none => 0) else denyBase
+        | _ => denyBase)
       let want0 := expectedView denyStatus (serve enums routes r)
       -- routesConfig.validateResponsePayload: a declared struct result is validated before it is sent; the rig's
       -- controllers return zero values, and `Item.Name` is required, so such a route answers 500 AFTER the call
       let validateResp := jboolD ((input.getObjVal? "project").toOption.bind (·.getObjVal? "config" |>.toOption) |>.getD Json.null) "validateResponsePayload"
       let returnsItem := match findRoute routes r with
-        | some (sr, _) => p.controllers.any fun c => c.methods.any fun pm => c.name = sr.ctrl && pm.m.name = sr.r.opId && pm.m.results.head? = some "Item"
+        | some (sr, _) => p.controllers.any fun c => c.methods.any fun pm => c.name = sr.ctrl && pm.m.name = sr.r.opId && (pm.m.results.head? = some "Item" || pm.m.results.head? = some "*Item")
         | none => false
       -- (whatever status the operation set itself; a FAILED operation is answered before the payload is looked at)
       let calledOk := match serve enums routes r, findRoute routes r with
